@@ -185,6 +185,7 @@ def check_handlers(ix, rep, cls, hs):
     d = D.dispatch_of(ix, cls)
     built = set(M.parser_builds(ix))
     n = 0
+    normalisers = {}
     for nc in D.node_classes(ix):
         if nc.name not in built:
             continue
@@ -237,8 +238,23 @@ def check_handlers(ix, rep, cls, hs):
                 for c in sat + uns:
                     if len(c.args) == 4:
                         elem = f.node.args.args[1].arg
-                        if [ast.unparse(a) for a in c.args[2:]] != ['%s.begin' % elem, '%s.end' % elem]:
-                            rep.fail('R-EXPL-PAIR', where, sym, slot + ':bounds', 'helper is given (%s) instead of (begin, end)' % ', '.join(ast.unparse(a) for a in c.args[2:]), c.lineno)
+                        # (begin, end) of the node *in samples*: bound by one tuple assignment from a normaliser applied to the node, in this order
+                        names = [a.id if isinstance(a, ast.Name) else None for a in c.args[2:]]
+                        src = None
+                        for st in f.node.body:
+                            if isinstance(st, ast.Assign) and isinstance(st.targets[0], ast.Tuple) and [getattr(x, 'id', None) for x in st.targets[0].elts] == names \
+                                    and isinstance(st.value, ast.Call) and any(isinstance(a, ast.Name) and a.id == elem for a in st.value.args):
+                                src = st.value
+                        if src is None:
+                            if [ast.unparse(a) for a in c.args[2:]] == ['%s.begin' % elem, '%s.end' % elem]:
+                                pass      # the written numbers: reported by R-UNITFLOW (raw bounds)
+                            else:
+                                rep.fail('R-EXPL-PAIR', where, sym, slot + ':bounds', 'helper is given (%s) instead of the node\'s (begin, end)' % ', '.join(ast.unparse(a) for a in c.args[2:]), c.lineno)
+                        else:
+                            g = ix.resolve_method(cls, src.func.attr) if isinstance(src.func, ast.Attribute) and D._self_call(src) else ix.resolve_expr(f.module, src.func)
+                            if g is None or not hasattr(g, 'node'):
+                                raise AnalysisError('%s: normaliser `%s` not resolved' % (f.where, ast.unparse(src.func)))
+                            normalisers[id(g)] = g
             elif nc.name not in ('Iff', 'Xor'):
                 rep.fail('R-EXPL-PAIR', where, sym, slot + ':helpers', 'handler does not choose the helper by polarity', f.node.lineno)
         # operand binding: every way the handler reaches an operand (results[children[k]], visit(children[k], ...)) is used for both operands of a
@@ -302,6 +318,12 @@ def check_handlers(ix, rep, cls, hs):
             else:
                 rep.fail('R-POLARITY', where, sym, pslot, 'operand %d of %s is explained with %s polarity, it contributes with %s polarity: a satisfied antecedent/negated '
                          'operand is explained as if violated, so its samples are not reported' % (k, nc.name, 'the same' if pol == 'flag' else 'the opposite', 'the opposite' if flip else 'the same'), c.lineno)
+    # the normalisers the handlers take their bounds from convert to samples: b * U[unit] / (period * U[period unit]), unit = own, else the other
+    # bound's, else the default (the evaluation's conversion, R-DIM of C08)
+    from sa.rules import units as _units
+    for g in normalisers.values():
+        _units.check_transformer(ix, rep, None, None, 'samples', func=g)
+    rep.floor('bound normalisers used by the explanation handlers', len(normalisers), 1)
     return n
 
 
@@ -350,6 +372,189 @@ def _shift_table(rep, hs):
     table[fb.node.name] = 0
     rep._shift_table = table
     return table
+
+
+def selection_of(fnode):
+    """run-extraction idiom: for each requested [begin,end] a two-state scan over range(begin, end+1) that opens a run at the first i with
+    C(signal[i]) and closes it at the first i with not C, and emits the open run after the loop: output k = { i in request : C_k(i) }.
+    -> {output position: (index of the signal parameter, 'ge0' | 'lt0')} or None when the function is not of this shape"""
+    params = [a.arg for a in fnode.args.args]
+    rets = [s for s in fnode.body if isinstance(s, ast.Return)]
+    if len(rets) != 1 or not isinstance(rets[0].value, ast.Tuple):
+        return None
+    outs = [e.id for e in rets[0].value.elts if isinstance(e, ast.Name)]
+    loops = [s for s in fnode.body if isinstance(s, ast.For)]
+    if len(loops) != 1 or len(outs) != len(rets[0].value.elts):
+        return None
+    outer = loops[0]
+    inner = [s for s in outer.body if isinstance(s, ast.For)]
+    if len(inner) != 1 or not isinstance(inner[0].target, ast.Name):
+        return None
+    it = inner[0].iter
+    if not (isinstance(outer.target, ast.Tuple) and len(outer.target.elts) == 2 and isinstance(it, ast.Call) and ast.unparse(it.func) == 'range' and len(it.args) == 2
+            and ast.unparse(it.args[0]) == outer.target.elts[0].id and ast.unparse(it.args[1]).replace(' ', '') == '%s+1' % outer.target.elts[1].id):
+        return None
+    i = inner[0].target.id
+
+    def pred(t):
+        """signal[i] >= 0 / < 0 -> (param index, kind)"""
+        if isinstance(t, ast.Compare) and len(t.ops) == 1 and isinstance(t.left, ast.Subscript) and isinstance(t.left.value, ast.Name) and t.left.value.id in params \
+                and ast.unparse(t.left.slice) == i and isinstance(t.comparators[0], ast.Constant) and t.comparators[0].value == 0:
+            if isinstance(t.ops[0], ast.GtE):
+                return (params.index(t.left.value.id), 'ge0')
+            if isinstance(t.ops[0], ast.Lt):
+                return (params.index(t.left.value.id), 'lt0')
+        return None
+    result = {}
+    for st in inner[0].body:
+        if not isinstance(st, ast.If) or len(st.orelse) != 1 or not isinstance(st.orelse[0], ast.If) or st.orelse[0].orelse:
+            return None
+        a, b = st, st.orelse[0]
+        if not (isinstance(a.test, ast.BoolOp) and isinstance(a.test.op, ast.And) and len(a.test.values) == 2 and isinstance(b.test, ast.BoolOp) and len(b.test.values) == 2):
+            return None
+        na, ca = a.test.values
+        sb, cb = b.test.values
+        if not (isinstance(na, ast.UnaryOp) and isinstance(na.op, ast.Not) and isinstance(na.operand, ast.Name) and isinstance(sb, ast.Name) and sb.id == na.operand.id):
+            return None
+        state = sb.id
+        p1, p2 = pred(ca), pred(cb)
+        if p1 is None or p2 is None or p1[0] != p2[0] or p1[1] == p2[1]:
+            return None
+        opens = [ast.unparse(x).replace(' ', '') for x in a.body]
+        start = None
+        for x in a.body:
+            if isinstance(x, ast.Assign) and isinstance(x.targets[0], ast.Name) and ast.unparse(x.value) == i:
+                start = x.targets[0].id
+        if '%s=True' % state not in opens or start is None:
+            return None
+        closes = [ast.unparse(x).replace(' ', '') for x in b.body]
+        app = [x for x in b.body if isinstance(x, ast.Expr) and isinstance(x.value, ast.Call) and isinstance(x.value.func, ast.Attribute) and x.value.func.attr == 'append']
+        if '%s=False' % state not in closes or len(app) != 1 or ast.unparse(app[0].value.args[0]).replace(' ', '') != '[%s,%s-1]' % (start, i):
+            return None
+        outname = app[0].value.func.value.id
+        # the run still open when the request ends
+        tail = [x for x in outer.body if isinstance(x, ast.If) and isinstance(x.test, ast.Name) and x.test.id == state]
+        if len(tail) != 1 or ast.unparse(tail[0].body[0]).replace(' ', '') != '%s.append([%s,%s])' % (outname, start, i):
+            return None
+        # state initialised closed per request
+        if not any(isinstance(x, ast.Assign) and ast.unparse(x).replace(' ', '') == '%s=False' % state for x in outer.body):
+            return None
+        if outname in outs:
+            result[outs.index(outname)] = p1
+    return result or None
+
+
+def _visit_facts(ix, cls, f, subst=None, depth=0):
+    """[(child expr text, intervals expr, flag expr, defining function, substitution)] for every self.visit(child, [intervals, flag]) executed by f,
+    following calls of helper methods of the explainer (parameters replaced by the arguments)"""
+    subst = subst or {}
+    out = []
+    for c in ast.walk(f.node):
+        if not isinstance(c, ast.Call):
+            continue
+        m = D._self_call(c)
+        if m == 'visit' and len(c.args) == 2 and isinstance(c.args[1], ast.List) and len(c.args[1].elts) == 2:
+            out.append((c.args[0], c.args[1].elts[0], c.args[1].elts[1], f, subst, c))
+        elif m and not (m.startswith('visit') and (len(m) == 5 or m[5].isupper())) and depth < 2:
+            g = ix.resolve_method(cls, m)
+            if g is not None and g is not f:
+                ps = [a.arg for a in g.node.args.args[1:]]
+                sub2 = {p: (a, f, subst) for p, a in zip(ps, c.args)}
+                out += _visit_facts(ix, cls, g, sub2, depth + 1)
+    return out
+
+
+def _resolve(e, f, subst):
+    """follow parameter substitution and single local definitions -> (expr, function, subst) of the defining expression"""
+    for _ in range(6):
+        if isinstance(e, ast.Name) and e.id in subst:
+            e, f, subst = subst[e.id]
+            continue
+        if isinstance(e, ast.Name):
+            ds = [st for st in ast.walk(f.node) if isinstance(st, ast.Assign) and len(st.targets) == 1 and isinstance(st.targets[0], ast.Name) and st.targets[0].id == e.id]
+            if len(ds) == 1:
+                e = ds[0].value
+                continue
+        break
+    return e, f, subst
+
+
+def check_nonmonotone(ix, rep, cls, hs, rule='R-POLARITY'):
+    """iff and xor are not monotone in their operands: whether they hold is fixed by the truth values of *both* operands, so a violated iff has one
+    operand that holds and one that does not.  Asking both "why are you violated" (the polarity of the connective) makes the holding operand
+    report nothing, and re-assigning its samples can turn it false and the iff true.  Each operand has to be asked with its own polarity: as
+    holding on the requested samples where its value is >= 0, as violated on the others."""
+    from sa.props import c01, c02
+    mon = [m for m in M.standard_monitors(ix) if m.kind == 'discrete-offline'][0]
+    sums, _ = c01.opsum_offline_discrete(ix, c02._Quiet(rep), mon)
+    d = D.dispatch_of(ix, cls)
+    n = 0
+    for nc in D.node_classes(ix):
+        nf = sums.get(nc.name)
+        if nf is None or nf[0] != 'pointwise' or '.arithmetic.' in nc.module.name + '.' or nc.name == 'Predicate':
+            continue
+        # operands below a function that is neither min, max nor negation
+        nonmono = set()
+
+        def walk(e, inside):
+            if isinstance(e, tuple) and e:
+                if not isinstance(e[0], str):
+                    for a_ in e:
+                        walk(a_, inside)
+                    return
+                if e[0] == 'x':
+                    if inside:
+                        nonmono.add(e[1])
+                    return
+                nxt = inside or e[0] not in ('min', 'max', 'neg', 'table')
+                for a_ in e[1:]:
+                    walk(a_, nxt)
+        walk(nf[1], False)
+        if not nonmono:
+            continue
+        meth, _ = d.method_for(nc, ix)
+        cat, info, f = D.classify(ix, cls, meth) if meth else ('missing', None, None)
+        if cat != 'compute':
+            continue
+        rep.analysed(f)
+        facts = _visit_facts(ix, cls, f)
+        for k in sorted(nonmono):
+            n += 1
+            slot = 'explainer:%s:own-polarity:%d' % (nc.name, k)
+            have = set()
+            for (child, iv, flag, g, subst, call) in facts:
+                ce, _, _ = _resolve(child, g, subst)
+                if not ast.unparse(ce).endswith('children[%d]' % k):
+                    continue
+                if not (isinstance(flag, ast.Constant) and isinstance(flag.value, bool)):
+                    continue
+                # the intervals: output j of a selection helper applied to this operand's own signal
+                ive = iv
+                sel = None
+                if isinstance(ive, ast.Name):
+                    for st in ast.walk(g.node):
+                        if isinstance(st, ast.Assign) and isinstance(st.value, ast.Call) and isinstance(st.value.func, ast.Name) and st.value.func.id.startswith('explain_'):
+                            tg = st.targets[0]
+                            names = [x.id if isinstance(x, ast.Name) else None for x in (tg.elts if isinstance(tg, ast.Tuple) else [tg])]
+                            if ive.id in names:
+                                h = resolve_alias(hs, st.value.func.id[len('explain_'):])
+                                so = selection_of(h.node) if h is not None else None
+                                j = names.index(ive.id)
+                                if so and j in so:
+                                    pidx, kind = so[j]
+                                    sig, sf, ss = _resolve(st.value.args[pidx], g, subst)
+                                    if ast.unparse(sig).replace(' ', '').endswith('results[%s]' % ast.unparse(ce).replace(' ', '')):
+                                        sel = kind
+                if (flag.value is True and sel == 'ge0') or (flag.value is False and sel == 'lt0'):
+                    have.add(flag.value)
+            if have == {True, False}:
+                rep.ok(rule, f.module.rel, f.qual, slot, 'asked as holding where its own value is >= 0 and as violated where it is < 0', f.node.lineno)
+            else:
+                rep.fail(rule, f.module.rel, f.qual, slot, '%s is not monotone in operand %d, but the operand is not asked with its own polarity (as holding on the requested samples where '
+                         'it holds, as violated on the others; found: %s): in a violated `p %s q` an operand that holds is asked why it is violated and reports nothing -- re-assigning '
+                         'its samples changes its truth value and, with it, that of the formula' % (nc.name, k, sorted(have) or 'the polarity of the connective for both', 'iff' if nc.name == 'Iff' else 'xor'),
+                         f.node.lineno)
+    return n
 
 
 def check_footprints(ix, rep, cls, hs, rule='R-EXPL-ALL'):
@@ -565,6 +770,11 @@ def check(ix, rep):
     rep.floor('helpers checked for honouring every interval', na, 20)
     check_accumulation(ix, rep, cls)
     nfp = check_footprints(ix, rep, cls, hs)
+    nnm = check_nonmonotone(ix, rep, cls, hs)
+    from sa.rules import unitflow
+    nrb = unitflow.check_raw_bounds(ix, rep, prefixes=('rtamt/explanation/', 'rtamt/pastifier/stl/horizon'), label='explainer')
+    rep.floor('functions reading the bounds of a timed node (explainer and its normaliser)', nrb, 1)
+    rep.floor('operands of non-monotone connectives (iff, xor)', nnm, 4)
     rep.floor('shifting pointwise operators checked for their explanation footprint', nfp, 6)
     nu = check_union(ix, rep)
     rep.floor('interval_union definitions', nu, 2)
